@@ -52,6 +52,7 @@ def run(ctx, report):
     R6 = report.rule('C09.D6', 'MMX/SSE instructions keep their mnemonic in AT&T syntax', floor=500)
     seen = set()
     n_invalid = 0
+    sse_names = set(printed_name(X, i_) for i_ in L.instances if i_.modifs.get(E['mmx']))
     for inst in L.instances:
         name = printed_name(X, inst)
         if 'INVALID' in name or 'REPZ' in name or 'REPNZ' in name:
@@ -90,6 +91,13 @@ def run(ctx, report):
             else:
                 R6.violation(iid, 'att-sse:%s:%s' % (name, res), 'the MMX/SSE instruction %s with operands (%s) is rendered as %r in AT&T syntax; GNU as names it %s (a suffixed name is another instruction)'
                              % (name, sig, res, name), where(arch, to_att.node), witness='f2 0f 10 00 renders movsl (%eax), %xmm0' if name == 'movsd' else None)
+        elif name in sse_names:
+            # an integer instruction whose Intel name is also an SSE mnemonic (string movsd/cmpsd): in AT&T syntax the bare name denotes the SSE one
+            if res == name:
+                R6.violation(iid, 'att-homonym:%s' % name, 'the string instruction %s (%s) is rendered as %r in AT&T syntax, which GNU as reads as the SSE instruction of that name '
+                             '(the string form is %sl)' % (name, sig, res, name[:4]), where(arch, to_att.node), witness="dis(a7) in AT&T syntax prints cmpsd")
+            else:
+                R6.ok(iid, sample='string %s is %s in AT&T syntax' % (name, res))
         args2 = [dict(a) for a in inst.operands]
         try:
             r2 = I.run(from_att, [[], res, args2, 'att_syntax'])
@@ -155,7 +163,8 @@ def run(ctx, report):
 
 
 MUTANTS = [
-    ('movsd-mem-movsl', 'miasmx/arch/ia32_arch.py', "    if name == 'movsd' and args[0][x86_afs.size] != 'xmm' \\\n                       and args[1][x86_afs.size] != 'xmm':", "    if name == 'movsd' and not (args[0][x86_afs.size] == 'xmm'\n                            and args[1][x86_afs.size] == 'xmm'):", 'C09.D6'),
+    ('cmpsd-att-homonym', 'miasmx/arch/ia32_arch.py', "    if name in ['movsd', 'cmpsd'] and args[0][x86_afs.size] != 'xmm' \\", "    if name in ['movsd'] and args[0][x86_afs.size] != 'xmm' \\", 'C09.D6'),
+    ('movsd-mem-movsl', 'miasmx/arch/ia32_arch.py', "    if name in ['movsd', 'cmpsd'] and args[0][x86_afs.size] != 'xmm' \\\n                                  and args[1][x86_afs.size] != 'xmm':", "    if name in ['movsd', 'cmpsd'] and not (args[0][x86_afs.size] == 'xmm'\n                            and args[1][x86_afs.size] == 'xmm'):", 'C09.D6'),
     ('deref3-overwrite', 'miasmx/arch/ia32_att.py', "    t[0][reg] = t[6] + t[0].get(reg, 0)", "    t[0][reg] = t[6]", 'C09.D5'),
     ('no-lea', 'miasmx/arch/ia32_arch.py', "        'lea', 'mov', 'xchg', 'push', 'pop',", "        'mov', 'xchg', 'push', 'pop',", 'C09.D1'),
     ('ptr-w-u32', 'miasmx/arch/ia32_arch.py', "            'w': x86_afs.u16,\n            'l': x86_afs.u32, },\n        'lea',", "            'w': x86_afs.u32,\n            'l': x86_afs.u32, },\n        'lea',", 'C09.D'),
